@@ -213,6 +213,10 @@ DIRECTED = [
     ["bg 0", "appendout 1 0 K v", "appendout 2 1 k w", "fromout 0 2", "valout 2 K", "fromout 1 0", "fromin 2 2", "valin 2 k"],
     ["bg 0", "appendout 1 0 K", "pairs 0 a", "pairs 1", "new 2 -", "lit 3 -", "join 4", "join 5 3 2", "newin 2 0 3", "fromin 6 2", "valin 2 a"],
     ["lit 0 a=1,2;B=3", "copy 1 0", "set 1 A 9", "dump 0", "dump 1", "pcopy 0", "join 2 0 1 0", "pjoin 0 1", "get 0 b", "get 0 B", "delete 0 A", "len 0"],
+    # sibling contexts appended from one parent must not share the `added` backing array
+    ["bg 0", "appendout 1 0 a 1", "appendout 2 1 b 2", "appendout 3 2 c 3", "appendout 4 3 d 4", "appendout 5 3 e 5", "appendout 6 3 f 6",
+     "fromout 0 4", "fromout 1 5", "fromout 2 6", "valout 4 d", "valout 4 e", "valout 5 e", "valout 6 f", "appendout 7 4 g 7", "appendout 8 4 h 8",
+     "fromout 3 7", "fromout 4 8", "fromout 5 4"],
     ["new 0 A=1;a=2;b=3", "new 1 a=1;B=2", "pairs 2 A 1 a 2 A 3 b ~", "get 2 a", "append 2 A 4,5", "get 2 A", "set 2 a -", "append 2 q -", "dump 2"],
 ]
 
